@@ -572,7 +572,12 @@ func runC14(c *Ctx) {
 	// (4) eviction state
 	checkGuards(r, p, "lock/guarded-by", []GuardRow{
 		{Pkg: pkg, Type: "evictionState", Mutex: "mutex", Fields: []string{"lastEvictedSlot", "evictionEvents"}},
-		{Pkg: pkg, Type: "sortedSet", Mutex: "mutex", Fields: []string{"sortedElements", "elements"},
+		{Pkg: pkg, Type: "sortedSet", Mutex: "mutex", Fields: []string{"sortedElements", "elements", "heaviestElement", "lightestElement"},
+			// the two end variables are published (Set / Compute) inside the critical section in which the
+			// slice changed: publications then happen in the order of the changes. Reading the field (to hand
+			// the variable out) needs no lock.
+			Mutators: map[string][]string{"heaviestElement": {"Set", "Compute"}, "lightestElement": {"Set", "Compute"}},
+			ReadsOK:  map[string]string{"heaviestElement": "the variable itself is immutable and self-synchronising; only publishing through it is ordered by the mutex", "lightestElement": "see heaviestElement"},
 			CH:       map[string]LockMode{"updatePosition": ModeW, "swap": ModeW},
 			CondLock: map[string]string{".unsubscribeFromWeightUpdates!=nil": "the weight callback takes the mutex itself unless it is the initial invocation, which runs inside addSorted's own critical section"},
 			Exempt: map[string]string{
@@ -580,6 +585,120 @@ func runC14(c *Ctx) {
 				"sortedSet.updatePosition": "caller-holds (its deferred closure runs before the caller unlocks)",
 			}},
 	})
+	// ... and an end variable that is handed to a helper (where the lock rule no longer sees which
+	// variable a call goes to) may only be published through an update that makes a stale publication
+	// inert: Compute with a callback that compares two generation numbers and hands the current value
+	// back on that branch.
+	{
+		const rule = "sorted/end-published-through-alias"
+		nAlias, badAlias := 0, ""
+		isEndField := func(e ast.Expr) bool {
+			return fieldSel(info, e, "heaviestElement") || fieldSel(info, e, "lightestElement")
+		}
+		guardedCompute := func(c *ast.CallExpr) bool {
+			se, ok := ast.Unparen(c.Fun).(*ast.SelectorExpr)
+			if !ok || se.Sel.Name != "Compute" || len(c.Args) != 1 {
+				return false
+			}
+			lit, ok := ast.Unparen(c.Args[0]).(*ast.FuncLit)
+			if !ok || lit.Type.Params == nil || len(lit.Type.Params.List) == 0 || len(lit.Type.Params.List[0].Names) == 0 {
+				return false
+			}
+			cur := info.Defs[lit.Type.Params.List[0].Names[0]]
+			found := false
+			ast.Inspect(lit.Body, func(n ast.Node) bool {
+				ifs, ok := n.(*ast.IfStmt)
+				if !ok || found {
+					return !found
+				}
+				be, ok := ast.Unparen(ifs.Cond).(*ast.BinaryExpr)
+				if !ok || (be.Op != token.LSS && be.Op != token.LEQ && be.Op != token.GTR && be.Op != token.GEQ) {
+					return true
+				}
+				isInt := func(e ast.Expr) bool {
+					t := info.TypeOf(e)
+					if t == nil {
+						return false
+					}
+					b, ok := t.Underlying().(*types.Basic)
+					return ok && b.Info()&types.IsInteger != 0
+				}
+				if !isInt(be.X) || !isInt(be.Y) {
+					return true
+				}
+				for _, st := range ifs.Body.List {
+					if rs, ok := st.(*ast.ReturnStmt); ok && len(rs.Results) == 1 && objOfIdent(info, rs.Results[0]) == cur && cur != nil {
+						found = true
+					}
+				}
+				return true
+			})
+			return found
+		}
+		for _, fd := range p.Methods(pkg, "sortedSet") {
+			if fd.Body == nil {
+				continue
+			}
+			ast.Inspect(fd.Body, func(n ast.Node) bool {
+				c, ok := n.(*ast.CallExpr)
+				if !ok {
+					return true
+				}
+				for ai, a := range c.Args {
+					if !isEndField(a) {
+						continue
+					}
+					nAlias++
+					fn := staticCallee(info, c)
+					var cd *ast.FuncDecl
+					if fn != nil {
+						cd = p.decls().byFunc[fn.Origin()]
+					}
+					if cd == nil || cd.Body == nil {
+						badAlias = p.posStr(c.Pos()) + ": an end variable of the sorted set is handed to " + exprKey(c.Fun) + ", whose body is not available: where it is published cannot be ordered with the change of the slice"
+						continue
+					}
+					// the parameter the variable is bound to
+					var po types.Object
+					idx := 0
+					for _, fl := range cd.Type.Params.List {
+						for _, nm := range fl.Names {
+							if idx == ai {
+								po = info.Defs[nm]
+							}
+							idx++
+						}
+					}
+					ast.Inspect(cd.Body, func(m ast.Node) bool {
+						ident, isId := m.(*ast.Ident)
+						if !isId || po == nil || info.Uses[ident] != po {
+							return true
+						}
+						// every use of the parameter is the receiver of a generation-guarded Compute
+						okUse := false
+						ast.Inspect(cd.Body, func(q ast.Node) bool {
+							if qc, isCall := q.(*ast.CallExpr); isCall {
+								if qs, isSel := ast.Unparen(qc.Fun).(*ast.SelectorExpr); isSel && ast.Unparen(qs.X) == ast.Expr(ident) && guardedCompute(qc) {
+									okUse = true
+								}
+							}
+							return !okUse
+						})
+						if !okUse {
+							badAlias = p.posStr(ident.Pos()) + ": the end variable handed to " + cd.Name.Name + " is used other than as the receiver of a Compute whose callback drops stale publications (compares two generation numbers and returns the current value): published outside the set's critical section, an older end can overwrite a newer one"
+						}
+						return true
+					})
+				}
+				return true
+			})
+		}
+		if badAlias != "" {
+			r.Fail(rule, pkg+".sortedSet", "-", badAlias)
+		} else {
+			r.Pass(rule, pkg+".sortedSet", "-", fmt.Sprintf("%d hand-over(s) of an end variable to a helper, each published through a generation-guarded Compute", nAlias))
+		}
+	}
 	checkLockBalance(r, p, "lock/balance", []string{pkg}, nil, func(k string) bool {
 		return hasPrefixAny(k, pkg+".evictionState.", pkg+".sortedSet.")
 	})
